@@ -126,7 +126,9 @@ def unit_scaling_backend(
                         "replacing function: %s with %s", node, target_fn.__name__
                     )
                     replace_node_with_function(graph, node, target_fn)
-                elif node.target in U.torch_map:
+                elif node.target in U.torch_map and not _is_add(node):
+                    # (adds, including torch.add, are handled below: they may be
+                    # residual-adds)
                     target_fn = U.torch_map[node.target]
                     logger.info("unit scaling function: %s", node)
                     replace_node_with_function(graph, node, target_fn)
